@@ -74,7 +74,8 @@ class Gen:
             env[x] = list(env[y])
             return ("av", x, y)
         if k == "dc":
-            y = f"c{len(env)}"
+            self.ncopy = getattr(self, "ncopy", 0) + 1      # always a fresh name: a second `y = …` would be an assignment, not a declaration
+            y = f"c{len(env)}_{self.ncopy}"
             env[y] = env[x]          # python aliasing: same object
             return ("dc", y, x)
         vals = self.lit(len(env[x]))
@@ -224,7 +225,7 @@ def run(ctx: Ctx) -> int:
     model = ctx.lean.drive([b[1] for b in built])
     for (kind, setup, loop, passes), (src, req), (cpp, exc, res), m in zip(cases, built, results, model):
         ctx.count(kind)
-        replay = {"script": src, "passes": passes}
+        replay = {"script": src, "passes": passes, "model_request": req}
         if cpp is None:
             ctx.count("rejected:" + type(exc).__name__)
             continue
